@@ -93,4 +93,5 @@ func genericPack(c *Ctx) {
 	ruleFormatData(c, "G-FORMAT-DATA", pkgs)
 	ruleNilBreak(c, "G-NIL-ELEMENT-BREAK", pkgs)
 	ruleWalkCut(c, "G-WALK-CUT", pkgs, 0)
+	ruleMarkBeforeStateTest(c, "G-MARK-BEFORE-STATE-TEST", pkgs)
 }
